@@ -88,12 +88,15 @@ def edit_same_lines(src, rnd_no):
     return '\n'.join(out)
 
 
-def load_module(tmp, name, src):
+def load_module(tmp, name, src, register=True):
+    """register=False: the module is executed without being entered into sys.modules (inspect.getmodule then finds no module
+    for its functions; the source file is readable all the same)"""
     path = os.path.join(tmp, name + '.py')
     write_source(path, src)
     spec = importlib.util.spec_from_file_location(name, path)
     mod = importlib.util.module_from_spec(spec)
-    sys.modules[name] = mod
+    if register:
+        sys.modules[name] = mod
 
     def _alarm(*a):
         raise TimeoutError('generated module runs too long')
@@ -426,9 +429,10 @@ class Harness(object):
     def do_module(self, src, ctx, text_budget):
         self.nmod += 1
         name = 'c15m_%d_%d' % (os.getpid(), self.nmod)
-        ctx = dict(ctx, module=name, module_source=src)
+        registered = self.nmod % 4 != 0          # every fourth module stays out of sys.modules
+        ctx = dict(ctx, module=name, module_source=src, registered=registered)
         try:
-            mod, path = load_module(self.tmp, name, src)
+            mod, path = load_module(self.tmp, name, src, registered)
         except Exception as e:   # noqa
             self.run.note('generated module does not import (%s: %s) -- skipped' % (type(e).__name__, e))
             return
@@ -722,7 +726,7 @@ def replay(path):
                 REG = ns['REG']
             mod = _M
         else:
-            mod, path = load_module(tmp, 'c15m_replay', hist[0])
+            mod, path = load_module(tmp, 'c15m_replay', hist[0], rp.get('registered', True) or len(hist) > 1)
             for r, text in enumerate(hist[1:], 1):
                 f0 = mod.REG.get(rp.get('KEY'))
                 if f0 is not None:
